@@ -378,6 +378,25 @@ func init() {
 		w.ext["preemptonly"] = set
 		return nil
 	})
+	reg("verifnd.UseModel", func(w *World, t *Thread, fr *frame, fn *ssa.Function, args []Value) Value {
+		name := w.concStr(fr, args[0], "callee name")
+		var m map[string]Value
+		if v, ok := w.ext["usemodels"]; ok {
+			m = v.(map[string]Value)
+		} else {
+			m = map[string]Value{}
+			w.ext["usemodels"] = m
+		}
+		f := args[1]
+		if i, ok := f.(Iface); ok {
+			f = i.v
+			if i.t == nil {
+				f = nil
+			}
+		}
+		m[name] = f
+		return nil
+	})
 	reg("verifnd.TimersFire", func(w *World, t *Thread, fr *frame, fn *ssa.Function, args []Value) Value {
 		w.ext["timersfire"] = true
 		return nil
